@@ -247,7 +247,23 @@ def _c_implicit(loader, node):
     return ('IR', loader.construct_scalar(node))
 
 
+def _c_mapnd(loader, node):
+    CTL.tick('c')          # a user constructor on a mapping that does NOT ask for deep construction
+    return ('UN', tuple(loader.construct_mapping(node).items()))
+
+
+def _c_pathc(loader, node):
+    CTL.tick('c')          # the tag comes from a user PATH resolver; the constructor is a counted user callback
+    return ('PC', loader.construct_scalar(node))
+
+
+def _c_implicitc(loader, node):
+    CTL.tick('c')          # the tag comes from a user IMPLICIT resolver
+    return ('IC', loader.construct_scalar(node))
+
+
 IMPLICIT_RE = re.compile(r'^ir[0-9]+$')
+IMPLICITC_RE = re.compile(r'^ic[0-9]+$')
 
 
 def _customise_resolver(c):
@@ -255,6 +271,8 @@ def _customise_resolver(c):
     the first child of the root) and an implicit resolver."""
     c.add_path_resolver('!pt', [0, 'pk'], str)
     c.add_implicit_resolver('!ir', IMPLICIT_RE, ['i'])
+    c.add_path_resolver('!ptc', [0, 'ck'], str)
+    c.add_implicit_resolver('!irc', IMPLICITC_RE, ['i'])
 
 
 def _mk_loader(base):
@@ -267,6 +285,9 @@ def _mk_loader(base):
     c.add_constructor('!umap', _c_map)
     c.add_constructor('!ug', _c_gen)
     c.add_multi_constructor('!um:', _c_multi)
+    c.add_constructor('!umn', _c_mapnd)
+    c.add_constructor('!ptc', _c_pathc)
+    c.add_constructor('!irc', _c_implicitc)
     return c
 
 
@@ -350,6 +371,28 @@ class YKey(_StateHashed, yaml.YAMLObject):
     yaml_dumper = DUMPERS[('user', 'py')]
 
 
+class YTick(yaml.YAMLObject):
+    """A YAMLObject subclass with from_yaml / to_yaml of its own: a caller-supplied constructor and representer that the
+    metaclass registers with the user classes."""
+    yaml_tag = '!Tick'
+    yaml_loader = [LOADERS[('user', 'py')], LOADERS[('user', 'c')]]
+    yaml_dumper = DUMPERS[('user', 'py')]
+
+    def __init__(self, v):
+        self.v = v
+
+    @classmethod
+    def from_yaml(cls, loader, node):
+        CTL.tick('c')
+        return cls(loader.construct_scalar(node))
+
+    @classmethod
+    def to_yaml(cls, dumper, data):
+        CTL.tick('p')
+        return dumper.represent_scalar(cls.yaml_tag, data.v)
+
+
+DUMPERS[('user', 'c')].add_representer(YTick, YTick.to_yaml)
 PYTAG = '!!python/object:' + __name__ + '.'
 
 # ------------------------------------------------------------------ the pool: documents
@@ -363,6 +406,9 @@ ITEM_TEXT = {
     'po': '- ' + PYTAG + 'Plain {name: plain}', 'sl': '- ' + PYTAG + 'Point {x: 1, y: 2}',
     'ps': '- ' + PYTAG + 'Bag {items: *a}', 'pn': '- !!python/object/new:' + __name__ + '.Pair [*a]',
     'pk': '- ? ' + PYTAG + 'Key {name: k}\n  : kv', 'ys': '- !Bag {items: *a}', 'yk': '- ? !Key {name: k}\n  : kv',
+    # nested collections the library constructs in two steps (pending while a later sibling is constructed)
+    'gs': '- [sx]', 'gr': '- [*r]', 'ge': '- [!undefined z]', 'pc': '- {ck: pcv}', 'ic': '- ic7',
+    'yo': '- !Tick yv',              # YAMLObject subclass with its own from_yaml
 }
 DOCS = {
     'plain': (False, False, ['s', 's']), 'scanerr': (False, False, ['s', 'SE']), 'parseerr': (False, False, ['s', 'PE']),
@@ -373,8 +419,22 @@ DOCS = {
     'ugen': (False, False, ['cg', 'cu']), 'umulti': (False, False, ['s', 'cm']), 'paths': (False, False, ['pt', 'ir', 's']),
     'pyplain': (False, False, ['po', 's']), 'slots': (False, False, ['sl']), 'deepalias': (False, False, ['da', 'ps']),
     'newalias': (False, False, ['da', 'pn']), 'keyed': (False, False, ['pk']), 'ydeep': (False, False, ['da', 'ys']),
-    'ykeyed': (False, False, ['s', 'yk']),
+    'ykeyed': (False, False, ['s', 'yk']), 'yobj': (False, False, ['yo', 's']),
 }
+
+
+# the family <root>_<pending>_<point> of Api.tla (FamDocs): root kind x what is pending x the user callback that follows
+FAM_ROOTS, FAM_PEND, FAM_POINTS = ('sq', 'uq'), ('none', 'gs', 'cg', 'pc', 'gr', 'ge'), ('cu', 'cg', 'cm', 'ic', 'yo')
+DOC_ROOT = {}           # properties of the root node (anchor, tag of the non-generator user sequence constructor)
+for _r in FAM_ROOTS:
+    for _p in FAM_PEND:
+        for _q in FAM_POINTS:
+            _n = '%s_%s_%s' % (_r, _p, _q)
+            DOCS[_n] = (False, False, ([] if _p == 'none' else [_p]) + [_q])
+            _props = (['&r'] if _p == 'gr' else []) + (['!uq'] if _r == 'uq' else [])
+            if _props:
+                DOC_ROOT[_n] = ' '.join(_props)
+FAMILY = [n for n in DOCS if n[:3] in ('sq_', 'uq_')]
 
 
 def doc_text(name, implicit):
@@ -386,6 +446,8 @@ def doc_text(name, implicit):
         out += '%TAG !e! tag:yaml.org,2002:\n'
     if y or t or not implicit:
         out += '---\n'
+    if name in DOC_ROOT:
+        out += DOC_ROOT[name] + '\n'
     return out + ''.join(ITEM_TEXT[i] + '\n' for i in items)
 
 
@@ -403,7 +465,7 @@ VALS = {
     'usesve': (False, False, ['ve', 's'], False), 'verv': (False, True, ['s'], False), 'urepr': (False, False, ['ru', 's'], False),
     'umrepr': (False, False, ['x1', 'rm', 'x1'], False), 'uni': (False, False, ['nu', 's'], False),
     'uniau': (False, False, ['nu', 's'], True), 'scalarv': (False, False, ['S'], False),
-    'pathsv': (False, False, ['pv', 'iv', 's'], False),
+    'pathsv': (False, False, ['pv', 'iv', 's'], False), 'yrepr': (False, False, ['ry', 's'], False),
 }
 
 
@@ -414,7 +476,7 @@ def make_value(name):
     x1, x2, rec = ['x1v'], ['x2v'], []
     rec.append(rec)
     m = {'s': lambda: 'sv', 'x1': lambda: x1, 'x2': lambda: x2, 'rec': lambda: rec, 've': VE, 'RE': Unrepresentable,
-         'ru': RU, 'rm': RMSub, 'nu': lambda: 'caf\xe9',
+         'ru': RU, 'rm': RMSub, 'nu': lambda: 'caf\xe9', 'ry': lambda: YTick('yv'),
          'pv': lambda: {'pk': 'ptv', 'other': ['x', {'pk': 'y'}]}, 'iv': lambda: 'ir42'}
     return [m[i]() for i in items]
 
@@ -444,6 +506,8 @@ def make_node(name):
             kids.append(N.ScalarNode(STR, 'unrepresentable'))
         elif it == 'ru':
             kids.append(N.ScalarNode('!ru', 'ruv'))
+        elif it == 'ry':
+            kids.append(N.ScalarNode('!Tick', 'yv'))
         elif it == 'rm':
             kids.append(N.MappingNode('!rm', [(N.ScalarNode(STR, 'k'), N.ScalarNode(STR, 'rmv'))], flow_style=True))
         elif it == 'nu':
@@ -500,6 +564,8 @@ def make_events(names):
                 evs.append(E.ScalarEvent(None, EPREFIX + 't', (False, False), 'vev'))
             elif it == 'ru':
                 evs.append(E.ScalarEvent(None, '!ru', (False, False), 'ruv'))
+            elif it == 'ry':
+                evs.append(E.ScalarEvent(None, '!Tick', (False, False), 'yv'))
             elif it == 'rm':
                 evs.append(E.MappingStartEvent(None, '!rm', False, flow_style=True))
                 evs.append(E.ScalarEvent(None, None, (True, False), 'k'))
@@ -968,3 +1034,148 @@ def observe_dump_stream(step, variant=0):
     r = observe_call(st, variant)
     return {'end': r['end'], 'units': r['units']}
 
+
+
+# ------------------------------------------------------------------ C11: documents given as encoded bytes (Api.tla EncDocs)
+# (added for C11; add-only: the three names rebound at the end - open_load, _walk, globals_lines - keep their behaviour for
+# everything that existed before)
+import codecs as _codecs, collections as _collections, array as _array
+
+ENC_CODEC = {'u8': 'utf-8', 'ule': 'utf-16-le', 'ube': 'utf-16-be'}
+ENC_BOM = {'u8': b'', 'ule': _codecs.BOM_UTF16_LE, 'ube': _codecs.BOM_UTF16_BE}
+ENC_CHAR = {2: '\xe9', 3: '€', 4: '\U0001f600'}      # utf-8 widths 2, 3, 4; utf-16: 2 = one unit, 4 = a surrogate pair
+ENC_CHUNK = {'f': 1 << 20, 'r1': 1, 'r2': 2, 'r3': 3}     # what read(n) returns at most
+ENC_ITEMS = {'ok': ['s', 'mb'], 'SE': ['s', 'SE', 'mb'], 'PE': ['s', 'PE', 'mb'], 'CE': ['da', 'ub', 'mb'], 'KE': ['s', 'KE', 'mb']}
+ENC_RE = re.compile(r'^(u8|ule|ube)_(f|r[123])_c([234])([0-3])_(ok|SE|PE|CE|KE)$')
+ENC_FIRST_DECODE, ENC_NEXT_DECODE = 8192, 4096            # reader.py: two reads of 4096 before the first decode, then one
+
+
+def enc_parse(name):
+    m = ENC_RE.match(name)
+    if not m:
+        return None
+    return {'enc': m.group(1), 'form': m.group(2), 'width': int(m.group(3)), 'off': int(m.group(4)), 'end': m.group(5)}
+
+
+def enc_family(encs=('u8', 'ule', 'ube'), forms=('f', 'r1', 'r2', 'r3'), ends=('ok', 'SE', 'PE', 'CE', 'KE')):
+    """The names of Api.tla EncDocs restricted to the given encodings / forms / ends (every width and offset)."""
+    out = []
+    for e in encs:
+        for f in forms:
+            for w in ((2, 3, 4) if e == 'u8' else (2, 4)):
+                for k in range(w):
+                    if e != 'u8' and f in ('f', 'r2') and k % 2:
+                        continue
+                    out += ['%s_%s_c%d%d_%s' % (e, f, w, k, x) for x in ends]
+    return out
+
+
+def is_enc_source(arg):
+    return isinstance(arg, dict) and 'docs' in arg and any(ENC_RE.match(d) for d in arg['docs'])
+
+
+def enc_bytes(src):
+    """-> (bytes, form) for a source with at least one EncDocs document; encoding and form are those of the first one.
+    The run of multi-byte characters follows the failing item directly (where the scanner's look-ahead ends); for the full-read
+    form a comment line before item mb is filled up so that the item's multi-byte character starts `off` bytes before the next decode point."""
+    first = next(enc_parse(d) for d in src['docs'] if ENC_RE.match(d))
+    codec, form = ENC_CODEC[first['enc']], first['form']
+    data = ENC_BOM[first['enc']]
+    enc = lambda s: s.encode(codec)
+    for j, d in enumerate(src['docs']):
+        p = enc_parse(d)
+        if p is None:
+            data += enc(doc_text(d, j == 0 and src['impl']))
+            continue
+        ch = ENC_CHAR[p['width']]
+        run = ch * 4
+        if not (j == 0 and src['impl']):
+            data += enc('--- #' + run + '\n')
+        pad = 'p' * p['off']
+        for it in ENC_ITEMS[p['end']]:
+            if it == 's':
+                data += enc('- sx' + pad + '\n')
+            elif it == 'da':
+                data += enc('- &a va' + pad + '\n')
+            elif it == 'SE':
+                data += enc('- @' + run + '\n')          # a character that cannot start any token
+            elif it == 'mb':
+                # one entry, the same VALUE whatever the form: a flow sequence of two scalars with a comment between them;
+                # for the full-read form the comment fills up to the decode point (a token starts before it, so the
+                # look-ahead of a failing item in front does not run through it)
+                head, tail, fill = enc('- [' + run + 'z, #'), enc('\n  '), b''
+                if form == 'f':
+                    b = ENC_FIRST_DECODE
+                    while b < len(data) + len(head) + len(tail) + 64:
+                        b += ENC_NEXT_DECODE
+                    fill = enc('x') * ((b - p['off'] - len(data) - len(head) - len(tail)) // len(enc('x')))
+                data += head + fill + tail + enc(run + 'z]\n')
+            else:
+                data += enc(ITEM_TEXT[it] + '\n')
+    return data, form
+
+
+_open_load_text = open_load
+
+
+def open_load(step, variant=0, chunk=7):
+    """As before for the documents that are texts; a source with an EncDocs document is handed over as bytes in its
+    encoding: the bytes object (io = mem) or a byte stream that answers read(n) as its form says (io = file)."""
+    if not is_enc_source(step['arg']):
+        return _open_load_text(step, variant, chunk)
+    op, cls, be = step['op'], step['cls'], step['be']
+    data, form = enc_bytes(step['arg'])
+    src = InStream(data, ENC_CHUNK[form]) if step['io'] == 'file' else data
+    w = WRAP_LOAD.get((cls, op))
+    if w and be == 'py' and (variant & 4):
+        return lambda: getattr(yaml, w)(src)
+    L = loader_class(cls, be, variant)
+    if op in ('load', 'load_all'):
+        return lambda: getattr(yaml, op)(src, L)
+    return lambda: getattr(yaml, op)(src, Loader=L)
+
+
+# ---- the digest walker: objects whose CONTENT is state although they have no __dict__ to walk
+_walk_core = _walk
+
+
+def _walk(o, memo, depth, out, path):
+    if isinstance(o, (bytearray, memoryview, _collections.deque, _array.array)) and id(o) not in memo:
+        memo[id(o)] = path
+        c = bytes(o) if isinstance(o, (bytearray, memoryview)) else list(o)
+        out.append('%s=%s:%r' % (path, type(o).__name__, c))
+        return
+    if isinstance(o, (_codecs.IncrementalDecoder, _codecs.IncrementalEncoder)) and id(o) not in memo:
+        try:
+            out.append('%s.getstate()=%r' % (path, o.getstate()))       # bytes held back, flags (also of C-level codecs)
+        except Exception as e:
+            out.append('%s.getstate()!%s' % (path, type(e).__name__))
+    _walk_core(o, memo, depth, out, path)
+
+
+# ---- interpreter-global settings a library call may change for everybody (restored or not): part of the observation
+def interpreter_lines():
+    import warnings, locale, decimal, gc, threading
+    out = ['sys.recursionlimit=%d' % sys.getrecursionlimit(), 'sys.switchinterval=%r' % sys.getswitchinterval(),
+           'sys.dont_write_bytecode=%r' % sys.dont_write_bytecode, 'sys.int_max_str_digits=%r' % sys.get_int_max_str_digits(),
+           'sys.trace=%r sys.profile=%r' % (sys.gettrace() is not None, sys.getprofile() is not None),
+           'sys.hooks=%s,%s' % (getattr(sys.excepthook, '__qualname__', '?'), getattr(sys.displayhook, '__qualname__', '?')),
+           'warnings.filters=%d:%s' % (len(warnings.filters), md5(repr([(f[0], getattr(f[1], 'pattern', f[1]), f[2].__name__,
+                                                                                   getattr(f[3], 'pattern', f[3]), f[4]) for f in warnings.filters]))),
+           'locale=%r' % (locale.setlocale(locale.LC_ALL),), 'decimal.prec=%d' % decimal.getcontext().prec,
+           'gc=%r:%r' % (gc.isenabled(), gc.get_threshold()),
+           'sys.path=%s' % md5(repr(sys.path)), 'sys.meta_path=%d sys.path_hooks=%d' % (len(sys.meta_path), len(sys.path_hooks)),
+           'yaml-modules=%s' % ','.join(n for n, _ in package_modules())]
+    for name in ('utf-8', 'utf-16-le', 'utf-16-be', 'utf-16', 'ascii', 'latin-1'):
+        try:
+            out.append('codec:%s=%s' % (name, _codecs.lookup(name).name))
+        except LookupError:
+            out.append('codec:%s=missing' % name)
+    return out
+
+
+_globals_lines_package = globals_lines
+
+
+def globals_lines():
+    return _globals_lines_package() + ['<interpreter>.' + l for l in interpreter_lines()]
